@@ -84,6 +84,17 @@ def main():
     assigns = re.findall(r"current_rescaling\s*=[^=]", all_src)
     facts.append("Definition rescaling_never_assigned : bool := %s." % ("true" if not assigns else "false"))
 
+    # create_offspring: crossover of the population's values (initial value if empty), then mutation
+    m = need(r"fn\s+create_offspring\s*\(&mut self\)[^{]*\{(.*?)\n    \}", algo, "create_offspring")
+    body = re.sub(r"\s+", "", m.group(1))
+    shape = (
+        "letindividuals_ordered:Vec<&Value>=self.individuals.values().map(|ctx|&ctx.value).collect();" in body
+        and "letcrossover_result=ifindividuals_ordered.is_empty(){self.initial_value.clone()}else{self.crossover.crossover(&self.spec,&individuals_ordered," in body
+        and "letresult=mutation::mutate(&self.spec,&crossover_result," in body
+        and body.endswith("(result,meta_params_wrapper)")
+    )
+    facts.append("Definition offspring_is_mutated_crossover_of_population : bool := %s." % ("true" if shape else "false"))
+
     ctl = strip_comments(read_nontest("controller.rs"))
     m = need(r"_\s*=\s*&mut\s+in_abort_signal_recv\s*(,\s*if\s+([^=]+?))?\s*=>", ctl, "abort branch of the controller select")
     guard = (m.group(2) or "").strip()
